@@ -2514,7 +2514,7 @@ func (c *streamableClientConn) handleSSE(ctx context.Context, requestSummary str
 	retriesWithoutProgress := 0
 
 	for {
-		lastEventID, reconnectDelay, clientClosed := c.processStream(ctx, requestSummary, resp, forCall)
+		lastEventID, reconnectDelay, clientClosed := c.processStreamFrom(ctx, requestSummary, resp, forCall, prevLastEventID)
 
 		// If the connection was closed by the client, we're done.
 		if clientClosed {
@@ -2608,6 +2608,16 @@ func (c *streamableClientConn) checkResponse(ctx context.Context, requestSummary
 // indicating if the connection was closed by the client. If resp is nil, it
 // returns "", false.
 func (c *streamableClientConn) processStream(ctx context.Context, requestSummary string, resp *http.Response, forCall *jsonrpc.Request) (lastEventID string, reconnectDelay time.Duration, clientClosed bool) {
+	return c.processStreamFrom(ctx, requestSummary, resp, forCall, "")
+}
+
+// processStreamFrom is like [streamableClientConn.processStream] for a body
+// that continues a logical stream: resumeID is the ID of the last event
+// processed on earlier bodies of that stream, or "". A body that ends before
+// delivering any event leaves the stream resumable from that same event, so
+// resumeID is the initial value of the returned lastEventID.
+func (c *streamableClientConn) processStreamFrom(ctx context.Context, requestSummary string, resp *http.Response, forCall *jsonrpc.Request, resumeID string) (lastEventID string, reconnectDelay time.Duration, clientClosed bool) {
+	lastEventID = resumeID
 	defer func() {
 		// Drain any remaining unprocessed body. This allows the connection to be re-used after closing.
 		io.Copy(io.Discard, resp.Body)
